@@ -6,6 +6,7 @@ package sourceaddrs
 import (
 	"fmt"
 	"path"
+	"strings"
 
 	"github.com/apparentlymart/go-versions/versions"
 	regaddr "github.com/hashicorp/terraform-registry-address"
@@ -61,6 +62,16 @@ func ParseRegistrySource(given string) (RegistrySource, error) {
 	if pkgOnlyAddr.Subdir != "" {
 		// Should never happen, because we split the subpath off above.
 		panic("post-split registry address still has subdir")
+	}
+	// The hostname is kept in its punycode form and turned back into unicode
+	// whenever the address is printed. That conversion gives up on (and the
+	// hostname type then panics for) labels far longer than the 63 bytes a
+	// DNS label can have, which the forward conversion lets through.
+	hostname, _, _ := strings.Cut(pkgOnlyAddr.Package.Host.String(), ":")
+	for _, label := range strings.Split(hostname, ".") {
+		if len(label) > 63 {
+			return RegistrySource{}, fmt.Errorf("invalid module registry hostname: a label must not be longer than 63 characters")
+		}
 	}
 
 	return RegistrySource{
